@@ -161,6 +161,10 @@ fn check_line(stats: &mut Stats, g: &G, edges: &[Edge], refs: &HashMap<GraphEdge
         let (pa, pb) = (cols[k - 1].3, cols[k].3);
         let tie = (pa.0 - pb.0).abs() <= 0.001 && (pa.1 - pb.1).abs() <= 0.001 && match (idx[k - 1], idx[k]) { (Some(a), Some(b)) => a != b && (overlap_near(&edges[a], cols[k - 1].1, &edges[b]) || overlap_near(&edges[b], cols[k].1, &edges[a])), _ => false };
         if tie { stats.count("ties_on_shared_edges"); continue; }
+        // graphs of a shape welded to its own displaced copy: two edges cross the line within the comparator's 0.001 window and count as
+        // overlapping for the code (its test compares control-point distances), not for this oracle's `overlap_near`; the order inside
+        // the window is the comparator's business (C14's theorems say what it is), so it is not judged on these graphs
+        if (cfg.contains("welded_graph") || cfg.contains("coarsely_collided_graph")) && (pa.0 - pb.0).abs() <= 0.001 && (pa.1 - pb.1).abs() <= 0.001 { stats.count("ties_on_welded_graphs"); continue; }
         stats.fail(PROP, &format!("unsorted.{}", cfg), &format!("collision {} at line position {} comes before collision {} at {}; {}", k - 1, s0, k, s1, show()));
         break;
     }
@@ -352,8 +356,19 @@ pub fn search(seed: u64, n: u64) {
     // caches per edge (bounding boxes) must not be used stale by the ray casting (own stream; from seeded change C14-m10)
     let mut rng_w = Rng(seed ^ 0x3E1DC14);
     for k in 0..(6 + n / 40) {
-        let (sa, sb) = (rand_shape(&mut rng_w), rand_shape(&mut rng_w));
+        let (sa, mut sb) = (rand_shape(&mut rng_w), rand_shape(&mut rng_w));
         let acc = rng_w.r(0.3, 0.8);
+        if k % 4 < 3 {
+            // the second shape is the first one with every vertex (and its control points) displaced by 0.15 .. 0.9 x accuracy: every vertex has
+            // a partner to be welded to, so the weld really moves vertices
+            let mut jit = |rng: &mut Rng| { let a = rng.r(0.0, TAU); Coord2(a.cos(), a.sin()) * (acc * rng.r(0.15, 0.9)) };
+            let j0 = jit(&mut rng_w);
+            let n = sa.path.1.len();
+            let js: Vec<Coord2> = (0..n).map(|i| if i + 1 == n { j0 } else { jit(&mut rng_w) }).collect();
+            let mut prev = j0;
+            let secs: Vec<(Coord2, Coord2, Coord2)> = sa.path.1.iter().enumerate().map(|(i, (c1, c2, e))| { let r = (*c1 + prev, *c2 + js[i], *e + js[i]); prev = js[i]; r }).collect();
+            sb.path = (sa.path.0 + j0, secs);
+        }
         let (pa, pb) = (sa.path.clone(), sb.path.clone());
         let weld = k % 2 == 0;
         let lines: Vec<(Coord2, Coord2)> = (0..8).map(|_| (Coord2(rng_w.r(0.0, 100.0), rng_w.r(0.0, 100.0)), Coord2(rng_w.r(0.0, 100.0), rng_w.r(0.0, 100.0)))).collect();
@@ -377,7 +392,7 @@ pub fn search(seed: u64, n: u64) {
         let detail = || detail_owner.clone();
         stats.count(&format!("graph.{}", cls));
         stats.case(&format!("{} {}", cls, detail()), true);
-        check_graph(&mut stats, &mut rng_w, &g, cls, 30, &detail);
+        check_graph(&mut stats, &mut rng_w, &g, cls, 60, &detail);
     }
     for it in 0..n {
         if it % 5 == 4 {
